@@ -478,7 +478,9 @@ def replay(sh, payload):
         return "violated" if diffs else "held"
     # process mode: repeat in fresh processes
     diffs = 0
-    for i in range(8):
+    for i in range(40):     # (process-dependent layouts are a probabilistic observation: "held" = did not recur in 40 processes)
+        if diffs:
+            break
         w2 = worker.Worker(sh.bins["R"])
         got = key(w2.batch([x], fresh=True)[0])
         w2.close()
